@@ -161,43 +161,116 @@ pub fn monitor_answer(
     }
 }
 
-/// Extra programs/goals with lifetime and const unknowns and nested forall (text level).
-pub fn extra_cases() -> Vec<(&'static str, Vec<&'static str>)> {
-    vec![
+/// Extra programs/goals with lifetime and const unknowns and nested forall (text level): one
+/// hand-written program with many quantifier shapes, plus three product families — every subset
+/// of <= 3 impls from a menu over a two-position constructor whose second/first position is a
+/// type, a const or a lifetime (several answers that leave the SAME position open and differ in
+/// the other one is what answer merging has to get right).
+pub fn extra_cases() -> Vec<(String, Vec<String>)> {
+    let mut out: Vec<(String, Vec<String>)> = vec![(
+        "struct A {} struct S<T> {} struct L<'a> {} struct C<const N> {} \
+         trait Tr {} trait Tl<'a> {} trait Tc<const N> {} trait Two<T, U> {} \
+         impl Tr for A {} impl<T> Tr for S<T> where T: Tr {} \
+         impl<'a> Tl<'a> for A {} impl<'a> Tr for L<'a> {} \
+         impl<const N> Tc<N> for A {} impl Tc<3> for S<A> {} impl<const N> Tr for C<N> {} \
+         impl<T> Two<T, T> for A {} impl<T, U> Two<S<T>, U> for S<A> {}"
+            .to_string(),
+        [
+            "exists<'a> { A: Tl<'a> }",
+            "exists<'a> { L<'a>: Tr }",
+            "exists<T, 'a> { T: Tl<'a> }",
+            "exists<const N> { A: Tc<N> }",
+            "exists<const N> { S<A>: Tc<N> }",
+            "exists<T, const N> { T: Tc<N> }",
+            "exists<const N> { C<N>: Tr }",
+            "forall<'a> { exists<'b> { L<'a>: Tr, L<'b>: Tr } }",
+            "forall<'a> { exists<T> { T: Tl<'a> } }",
+            "forall<T> { exists<U> { forall<V> { exists<W> { A: Two<U, W> } } } }",
+            "forall<T> { exists<U> { forall<V> { exists<W> { S<A>: Two<U, W> } } } }",
+            "forall<T> { exists<U> { U = S<T> } }",
+            "forall<T> { exists<U> { forall<V> { exists<W> { U = S<T>, W = S<V> } } } }",
+            "exists<T, U> { A: Two<T, U> }",
+            "exists<T, U> { S<A>: Two<T, U> }",
+            "exists<T> { forall<U> { A: Two<T, U> } }",
+            "forall<const N> { exists<const M> { A: Tc<M>, C<N>: Tr } }",
+            "forall<'a, 'b> { exists<'c> { L<'c>: Tr } }",
+            "exists<T> { T: Tr }",
+            "exists<T> { S<T>: Tr }",
+            "exists<'a, 'b> { L<'a> = L<'b> }",
+            "forall<'a> { exists<'b> { L<'a> = L<'b> } }",
+            "exists<'b> { forall<'a> { L<'a> = L<'b> } }",
+        ]
+        .iter()
+        .map(|s| s.to_string())
+        .collect(),
+    )];
+    let families: Vec<(&str, Vec<&str>, Vec<&str>)> = vec![
         (
-            "struct A {} struct S<T> {} struct L<'a> {} struct C<const N> {} \
-             trait Tr {} trait Tl<'a> {} trait Tc<const N> {} trait Two<T, U> {} \
-             impl Tr for A {} impl<T> Tr for S<T> where T: Tr {} \
-             impl<'a> Tl<'a> for A {} impl<'a> Tr for L<'a> {} \
-             impl<const N> Tc<N> for A {} impl Tc<3> for S<A> {} impl<const N> Tr for C<N> {} \
-             impl<T> Two<T, T> for A {} impl<T, U> Two<S<T>, U> for S<A> {}",
+            "struct A {} struct B {} struct P<T, U> {} trait Pl {}",
             vec![
-                "exists<'a> { A: Tl<'a> }",
-                "exists<'a> { L<'a>: Tr }",
-                "exists<T, 'a> { T: Tl<'a> }",
-                "exists<const N> { A: Tc<N> }",
-                "exists<const N> { S<A>: Tc<N> }",
-                "exists<T, const N> { T: Tc<N> }",
-                "exists<const N> { C<N>: Tr }",
-                "forall<'a> { exists<'b> { L<'a>: Tr, L<'b>: Tr } }",
-                "forall<'a> { exists<T> { T: Tl<'a> } }",
-                "forall<T> { exists<U> { forall<V> { exists<W> { A: Two<U, W> } } } }",
-                "forall<T> { exists<U> { forall<V> { exists<W> { S<A>: Two<U, W> } } } }",
-                "forall<T> { exists<U> { U = S<T> } }",
-                "forall<T> { exists<U> { forall<V> { exists<W> { U = S<T>, W = S<V> } } } }",
-                "exists<T, U> { A: Two<T, U> }",
-                "exists<T, U> { S<A>: Two<T, U> }",
-                "exists<T> { forall<U> { A: Two<T, U> } }",
-                "forall<const N> { exists<const M> { A: Tc<M>, C<N>: Tr } }",
-                "forall<'a, 'b> { exists<'c> { L<'c>: Tr } }",
-                "exists<T> { T: Tr }",
-                "exists<T> { S<T>: Tr }",
-                "exists<'a, 'b> { L<'a> = L<'b> }",
-                "forall<'a> { exists<'b> { L<'a> = L<'b> } }",
-                "exists<'b> { forall<'a> { L<'a> = L<'b> } }",
+                "impl<T> Pl for P<T, A> {}",
+                "impl<T> Pl for P<T, B> {}",
+                "impl<T> Pl for P<A, T> {}",
+                "impl<T, U> Pl for P<T, U> {}",
+                "impl<T> Pl for P<T, T> {}",
+                "impl Pl for P<A, B> {}",
+            ],
+            vec![
+                "exists<X> { X: Pl }",
+                "exists<X, Y> { P<X, Y>: Pl }",
+                "exists<X> { P<X, A>: Pl }",
+                "exists<X> { P<A, X>: Pl }",
+                "exists<X> { P<X, X>: Pl }",
+                "forall<K> { exists<X> { P<X, K>: Pl } }",
             ],
         ),
-    ]
+        (
+            "struct A {} struct Bf<T, const N> {} trait Pk {}",
+            vec![
+                "impl<const N> Pk for Bf<u8, N> {}",
+                "impl<const N> Pk for Bf<u16, N> {}",
+                "impl<T> Pk for Bf<T, 3> {}",
+                "impl<T> Pk for Bf<T, 4> {}",
+                "impl<T, const N> Pk for Bf<T, N> {}",
+                "impl Pk for Bf<A, 3> {}",
+            ],
+            vec![
+                "exists<X> { X: Pk }",
+                "exists<X, const N> { Bf<X, N>: Pk }",
+                "exists<const N> { Bf<u8, N>: Pk }",
+                "exists<X> { Bf<X, 3>: Pk }",
+                "forall<const K> { exists<X> { Bf<X, K>: Pk } }",
+            ],
+        ),
+        (
+            "struct A {} struct B {} struct Rf<'a, T> {} trait Pr {}",
+            vec![
+                "impl<'a> Pr for Rf<'a, A> {}",
+                "impl<'a> Pr for Rf<'a, B> {}",
+                "impl<T> Pr for Rf<'static, T> {}",
+                "impl<'a, T> Pr for Rf<'a, T> {}",
+                "impl Pr for Rf<'static, A> {}",
+            ],
+            vec![
+                "exists<X> { X: Pr }",
+                "exists<'a, X> { Rf<'a, X>: Pr }",
+                "exists<'a> { Rf<'a, A>: Pr }",
+                "exists<X> { Rf<'static, X>: Pr }",
+                "forall<'k> { exists<X> { Rf<'k, X>: Pr } }",
+            ],
+        ),
+    ];
+    for (header, impls, goals) in families {
+        let n = impls.len();
+        for mask in 1u32..(1 << n) {
+            if mask.count_ones() > 3 {
+                continue;
+            }
+            let sel: Vec<&str> = (0..n).filter(|i| mask >> i & 1 == 1).map(|i| impls[i]).collect();
+            out.push((format!("{} {}", header, sel.join(" ")), goals.iter().map(|g| g.to_string()).collect()));
+        }
+    }
+    out
 }
 
 pub fn run_c28(rep: &Report) -> i32 {
@@ -214,6 +287,20 @@ pub fn run_c28(rep: &Report) -> i32 {
             let mut solver = AnySolver::new(cfg);
             let (r, _) = solver.solve(program, ugoal);
             *local.entry("solve_calls".into()).or_insert(0) += 1;
+            if let Caught::Panic(loc, msg) = &r {
+                // the solver's own assertions on the answer it is about to return (the canonicalizer
+                // forbids free variables, substitutions are kind-checked, ...) firing on a valid query
+                // mean the answer under construction was ill-formed
+                if ["free variable", "mismatched kinds", "substitution", "apply_solution"].iter().any(|k| msg.contains(k)) {
+                    rep.violation(Violation {
+                        property: "C28".into(),
+                        kind: "solver-asserts-ill-formed-answer".into(),
+                        site: format!("{}/{}", cfg.short(), crate::report::panic_site(loc, msg)),
+                        what: format!("{} on `{}` panics while building its answer: {} ({})", cfg.name(), goal_text, msg, loc),
+                        input: input(&cfg.name()),
+                    });
+                }
+            }
             if let Caught::Ok(sol) = &r {
                 if sol.is_some() {
                     *local.entry("solutions_checked".into()).or_insert(0) += 1;
@@ -264,10 +351,10 @@ pub fn run_c28(rep: &Report) -> i32 {
         rep.merge_counts(&local);
     });
     for (ptext, goals) in extra_cases() {
-        let program = drive::load_program(ptext).expect("extra program lowers");
+        let program = drive::load_program(&ptext).expect("extra program lowers");
         let mut local = BTreeMap::new();
         for gt in goals {
-            match drive::peel(&program, gt) {
+            match drive::peel(&program, &gt) {
                 Ok(peeled) => {
                     *local.entry("cases".into()).or_insert(0) += 1;
                     *local.entry("extra_cases_lifetime_const_nested".into()).or_insert(0) += 1;
@@ -277,9 +364,11 @@ pub fn run_c28(rep: &Report) -> i32 {
                         &program,
                         &peeled.ugoal,
                         &|s| json!({"program": ptext, "goal": gt, "solver": s}),
-                        gt,
+                        &gt,
                     );
-                    rep.sample(json!({"program": "<extra>", "goal": gt}));
+                    if local.get("cases").copied().unwrap_or(0) <= 2 {
+                        rep.sample(json!({"program": ptext, "goal": gt}));
+                    }
                 }
                 Err(e) => rep.machinery_error(format!("extra goal does not lower: {} :: {}", e, gt)),
             }
@@ -294,7 +383,7 @@ pub fn run_c28(rep: &Report) -> i32 {
         cases,
         calls,
         nt,
-        "every (program, goal) of the reduced C01 corpus plus hand-enumerated goals with lifetime/const unknowns and nested forall x {SLG, recursive}; each returned solution and each enumerated SLG answer is checked structurally (entry count, kinds, bound variables, universes) and applied to the query; non-trivial = the solver returned a solution (not None)",
+        "every (program, goal) of the reduced C01 corpus plus a hand-written program with lifetime/const unknowns and nested forall and three product families (every subset of <= 3 impls over a two-position constructor with a type, const or lifetime position; 5-6 goals each) x {SLG, recursive}; each returned solution and each enumerated SLG answer is checked structurally (entry count, kinds, bound variables, universes) and applied to the query; non-trivial = the solver returned a solution (not None)",
         true,
         &["the monitor reads chalk's own Canonical/Substitution values through the public visitor API"],
     )
